@@ -448,6 +448,12 @@ def fam_replicate(lib, part, par, js, vfs):
         quat = qmul(quat, qstep)
     xa = head + copies + "  </worldbody>\n</mujoco>\n"
     check_pair(lib, part, "replicate", "%s %s" % (par, js), xa, xb)
+    # the same with a model-level element that references nothing inside the replicated subtree (a clock sensor): replicating
+    # bodies must not replicate it
+    glob = '  <sensor><clock name="clk"/></sensor>\n</mujoco>\n'
+    check_pair(lib, part, "replicate (with a reference-less sensor)", "%s %s" % (par, js), xa.replace("</mujoco>\n", glob),
+               xb.replace("</mujoco>\n", glob))
+    part.add("replicate_with_referenceless_sensor")
 
 
 def elem(ptr):
